@@ -195,7 +195,9 @@ func (n NodeTypeAccess) marshalCedar(buf *bytes.Buffer) {
 func (n NodeTypeExtensionCall) marshalCedar(buf *bytes.Buffer) {
 	var args []ast.IsNode
 	info := extensions.ExtMap[n.Name]
-	if info.IsMethod {
+	// A method-style call needs a receiver; an argument-less call (only constructible from JSON or
+	// programmatically) is rendered in function style instead of indexing past the end.
+	if info.IsMethod && len(n.Args) > 0 {
 		marshalChildNode(n.precedenceLevel(), n.Args[0], buf)
 		buf.WriteRune('.')
 		args = n.Args[1:]
